@@ -167,9 +167,15 @@ def step (st : St) (line : String) : St × String :=
       (st, match edsNotification empty h hash with | .ok _ => "ok" | .err => "err" | .panic _ => "panic")
     | _, _, _ => (st, "bad-op")
   | "edsresp" :: _ =>
-    match natArg? ws "len" with
-    | some n => (st, match edsResponseGuards n with | .ok k => s!"guards-ok {k}" | .err => "err" | .panic _ => "panic")
-    | none => (st, "bad-op")
+    match hexListArg? ws "data", hexArg? ws "tail" with
+    | some data, some tail =>
+      let len := (data.map List.length).sum + tail.length
+      let k := match edsResponseGuards len with | .ok k => k | _ => 0
+      -- the guards, then leopard's entry guards on the first row of `k` shares
+      let raw := data.flatten ++ tail
+      let row := (List.range k).map (fun i => (raw.drop (i * SHARE_SIZE)).take SHARE_SIZE)
+      (st, match edsResponseFirstEncode dummyCodec len row with | .panic _ => "panic" | _ => "nopanic")
+    | _, _ => (st, "bad-op")
   | "eh" :: _ => (st, "nopanic")
   | op :: _ =>
     match st with
